@@ -188,6 +188,29 @@ Run(D, K, loc, atStart, fuel) ==
                 LET c == CondHolds(s.c, loc) IN
                 IF c \notin {"t", "f"} THEN [K |-> K, loc |-> [loc EXCEPT !.err = c]]
                 ELSE Run(D, <<SeqFrame(IF c = "t" THEN s.th ELSE s.el)>> \o K1, loc, FALSE, fuel - 1)
+           [] s.k = "match" ->
+                \* C03: "Conditional constructs (if/elif/else, match, for-loops ending in break or return, for-else) execute
+                \*  exactly the first branch whose condition holds, or the default."
+                LET sel == CEval(s.e, ReadEnv(loc))
+                    eqv(i) == CCompare("eq", sel, CEval(s.cases[i].v, ReadEnv(loc)))
+                    bad == {i \in 1..Len(s.cases) : CIsErr(eqv(i))}
+                    hits == {i \in 1..Len(s.cases) : ~CIsErr(eqv(i)) /\ eqv(i).v = 1}
+                IN IF CIsErr(sel) THEN [K |-> K, loc |-> [loc EXCEPT !.err = sel.v]]
+                   ELSE IF bad # {} THEN [K |-> K, loc |-> [loc EXCEPT !.err = eqv(CHOOSE i \in bad : TRUE).v]]
+                   ELSE IF hits # {} THEN Run(D, <<SeqFrame(s.cases[CHOOSE i \in hits : \A j \in hits : i <= j].body)>> \o K1, loc, FALSE, fuel - 1)
+                   ELSE Run(D, <<SeqFrame(s.default)>> \o K1, loc, FALSE, fuel - 1)       \* `case _` (empty when absent)
+           [] s.k = "forchain" ->
+                \* for c, v in zip(conds, vals): if c: T <<= v; break   else: T <<= else_val
+                LET cs == [i \in 1..Len(s.conds) |-> CondHolds(s.conds[i], loc)]
+                    bad == {i \in 1..Len(cs) : cs[i] \notin {"t", "f"}}
+                    hits == {i \in 1..Len(cs) : cs[i] = "t"}
+                    \* the loop body is one assignment (or, mode "bind", the definition of an intermediate value)
+                    body(e) == IF s.mode = "bind" THEN [k |-> "bind", n |-> s.t.obj, e |-> e]
+                               ELSE [k |-> "assign", mode |-> s.mode, t |-> s.t, e |-> e, form |-> "op"]
+                IN IF bad # {} THEN [K |-> K, loc |-> [loc EXCEPT !.err = cs[CHOOSE i \in bad : TRUE]]]
+                   ELSE IF hits # {} THEN Run(D, <<SeqFrame(<<body(s.bes[CHOOSE i \in hits : \A j \in hits : i <= j])>>)>> \o K1, loc, FALSE, fuel - 1)
+                   ELSE IF s.haselse = 1 THEN Run(D, <<SeqFrame(<<body(s.elseval)>>)>> \o K1, loc, FALSE, fuel - 1)
+                   ELSE Run(D, K1, loc, FALSE, fuel - 1)
            [] s.k = "await" ->
                 \* "an await polls its condition once per clock starting the clock after it is reached
                 \*  (immediately if it is the very first action of the process)"
@@ -245,6 +268,8 @@ RECURSIVE StmtTargets(_, _), StmtsTargets(_, _, _)
 StmtTargets(s, modes) ==
   CASE s.k = "assign" -> IF s.mode \in modes THEN {s.t.obj} ELSE {}
     [] s.k = "local" -> IF "next" \in modes THEN {s.n} ELSE {}
+    [] s.k = "forchain" -> IF s.mode \in modes THEN {s.t.obj} ELSE {}      \* mode "bind" defines an intermediate, no object
+    [] s.k = "match" -> StmtsTargets(s.default, 1, modes) \cup UNION {StmtsTargets(s.cases[i].body, 1, modes) : i \in 1..Len(s.cases)}
     [] s.k = "if" -> StmtsTargets(s.th, 1, modes) \cup StmtsTargets(s.el, 1, modes)
     [] s.k = "while" -> StmtsTargets(s.body, 1, modes)
     [] OTHER -> {}
